@@ -258,7 +258,11 @@ fn build_config(desc: &Value, env: &mut Env) -> Result<Config, String> {
         }
     }
     let o = desc.get("opts").cloned().unwrap_or(json!({}));
+    // the order of the setter calls is the front end's choice: "_ansi_first" calls the ANSI setter before the others
     unsafe {
+        if b(&o, "_ansi_first", false) {
+            riti_config_set_ansi_encoding(ptr, b(&o, "ansi", false));
+        }
         riti_config_set_suggestion_include_english(ptr, b(&o, "english", false));
         riti_config_set_phonetic_suggestion(ptr, b(&o, "phonetic_suggestion", false));
         riti_config_set_fixed_suggestion(ptr, b(&o, "fixed_suggestion", false));
@@ -268,7 +272,9 @@ fn build_config(desc: &Value, env: &mut Env) -> Result<Config, String> {
         riti_config_set_fixed_old_reph(ptr, b(&o, "old_reph", false));
         riti_config_set_fixed_numpad(ptr, b(&o, "numpad", false));
         riti_config_set_fixed_old_kar_order(ptr, b(&o, "kar_order", false));
-        riti_config_set_ansi_encoding(ptr, b(&o, "ansi", false));
+        if !b(&o, "_ansi_first", false) {
+            riti_config_set_ansi_encoding(ptr, b(&o, "ansi", false));
+        }
         riti_config_set_smart_quote(ptr, b(&o, "smart_quote", true));
     }
     let cfg = unsafe { (*ptr).clone() };
